@@ -29,12 +29,16 @@ func vCoreTables() []vTable {
 		/* 15 */ one("/t", vRoute{method: "GET", path: "/a", cond: true}, g("/{v}")),
 		/* 16 */ one("/", g("/"), g("/a/{v}/b")),
 		/* 17 */ one("/t", g("/a/{v:[a-z]+}"), g("/a/{w}")),
-		/* 18 */ one("/t", g("/p{v}.x")),
-		/* 19 */ one("/t", vRoute{method: "LOCK", path: "/a"}, vRoute{method: "UNLOCK", path: "/a"}, g("/b")),
+		/* 18 */ one("/t", g("/ab{v}ba")),
+		/* 19 */ one("/t", vRoute{method: "UNLOCK", path: "/a"}, vRoute{method: "LOCK", path: "/a"}, g("/b")),
 		/* 20 */ {services: []vService{{root: "/a/{r:[0-9]+}", routes: []vRoute{g("/b")}}, {root: "/a/7", routes: []vRoute{g("/b")}}}},
 		/* 21 */ {services: []vService{{root: "/a", routes: []vRoute{g("/{v}")}}, {root: "/b", routes: []vRoute{g("/{w}")}}}},
 		/* 22 */ one("/t", g("/{v}/{w}:go")),
 		/* 23 */ one("/t", g("/{v:[0-9]*}")),
+		/* 24 */ one("/t", vRoute{method: "POST", path: "/a/b"}, g("/a/{x}"), g("/{y}/b"), vRoute{method: "PUT", path: "/{p}/{q}"}),
+		/* 25 */ {services: []vService{{root: "/a", routes: []vRoute{g("/b")}}, {root: "/", routes: []vRoute{g("/{v}/b")}}}},
+		/* 26 */ one("/t", g("/a/{x}"), g("/{y}/b")),
+		/* 27 */ one("/t", g("/abc/{x}"), g("/{y}/d")),
 	}
 }
 
